@@ -174,6 +174,23 @@ def wf (L : Nat) : Nat → Bool → List Action → Bool
   | d, e, .setSlot :: p => wf L d e p
   | d, _, .getSlot :: p => wf L d false p
 
+/-- `good L d ss prog` (shape needed for PROGRESS, on top of `wf`): the program takes and releases only lock
+    `L`, properly nested (`d` = current recursion level, back to 0 at the end), and reads the opener slot
+    (`getSlot`) only when the slot is certainly filled (`ss`: it was filled when last tested, or this thread
+    filled it; the slot is never emptied). -/
+def good (L : Nat) : Nat → Bool → List Action → Bool
+  | d, _, [] => d == 0
+  | d, ss, .acquire l :: p => l == L && good L (d + 1) ss p
+  | d, ss, .release l :: p => l == L && d != 0 && good L (d - 1) ss p
+  | d, ss, .seek _ :: p => good L d ss p
+  | d, ss, .seekEnd :: p => good L d ss p
+  | d, ss, .tell :: p => good L d ss p
+  | d, ss, .read _ :: p => good L d ss p
+  | d, ss, .probe k :: p => (p.take k).all Action.slotOnly && good L d ss p
+  | d, ss, .opn :: p => good L d ss p
+  | d, _, .setSlot :: p => good L d true p
+  | d, ss, .getSlot :: p => ss && good L d ss p
+
 /-- initial state: `nh` handles exist (all at position `p0 h`), nobody holds a lock -/
 def State.init (progs : Tid → List Action) (nh : Nat) (p0 : Nat → Nat := fun _ => 0) : State :=
   { pos := p0, nh := nh, slot := none, owner := fun _ => none, count := fun _ => 0,
@@ -197,6 +214,11 @@ def getFileobjPersist : List Action := [.probe 2, .opn, .setSlot, .getSlot]
 
 /-- `ArrayProxy.copy()`: the lock the copy uses (`fresh` = the lock its `__init__` created) -/
 def copyLock (hasFh : Bool) (srcLock fresh : Nat) : Nat := if hasFh then srcLock else fresh
+
+/-- `ArrayProxy.reshape()` (arrayproxy.py `reshape`): a NEW proxy over the same `file_like` that keeps the
+    fresh lock its constructor made — outside property C14 (which speaks of `copy()` only); see
+    `reshape_new_lock_counterexample`. -/
+def reshapeLock (_srcLock fresh : Nat) : Nat := fresh
 
 /-- same programs with the lock operations removed (`_NullLock`) -/
 def unlocked (p : List Action) : List Action :=
@@ -257,6 +279,20 @@ structure Plan where
 
 def errPlan : Plan := ⟨[], 0, fun _ => .err⟩
 
+/-- the segments of a sliced read as (offset, length) pairs of naturals -/
+def natSegs (d : Nb.C06.SliceDefs) : List (Nat × Nat) := d.segments.map (fun sg => (sg.offset.toNat, sg.length))
+
+/-- decoder of a sliced read: `np.ndarray(sliced_shape, dtype, buffer=bytes, order)[post_slicers]` —
+    reshape to the read shape, post-slice, reorder (fileslice.py `fileslice`, last three lines) -/
+def finishSliced (c : Cfg) (d : Nb.C06.SliceDefs) (bytes : List Byte) : Res :=
+  if bytes.length ≠ d.readShape.foldl (· * ·) 1 * c.isz then .err else
+  match Nb.C06.postSels d.post d.readShape with
+  | .error _ => .err
+  | .ok sels =>
+    let a : Nb.C06.NdArr Nat := ⟨d.readShape, decodeLE c.isz bytes⟩
+    let out := a.index sels
+    .ok (Nb.C06.orient c.order out.shape) out.data
+
 def wrapOuter (r : Req) (p : List Action) : List Action :=
   if r.outer then [.acquire r.lock] ++ p ++ [.release r.lock] else p
 
@@ -282,17 +318,7 @@ def plan (c : Cfg) (r : Req) : Plan :=
       match Nb.C06.calcSlicedefs (Nb.C06.thresholdHeuristic Gen.skipThresh) idx c.shape c.isz c.off c.order with
       | .error _ => errPlan
       | .ok d =>
-        let segs := d.segments.map (fun sg => (sg.offset.toNat, sg.length))
-        let want := d.readShape.foldl (· * ·) 1 * c.isz
-        ⟨wrapOuter r (pre ++ lockedSegs r.lock segs), segs.length,
-         fun bytes =>
-           if bytes.length ≠ want then .err else
-           match Nb.C06.postSels d.post d.readShape with
-           | .error _ => .err
-           | .ok sels =>
-             let a : Nb.C06.NdArr Nat := ⟨d.readShape, decodeLE c.isz bytes⟩
-             let out := a.index sels
-             .ok (Nb.C06.orient c.order out.shape) out.data⟩
+        ⟨wrapOuter r (pre ++ lockedSegs r.lock (natSegs d)), (natSegs d).length, finishSliced c d⟩
 
 /-- data of the `read` events of thread `t`, in order -/
 def readsOf (t : Tid) (tr : List (Tid × Ev)) : List (List Byte) :=
